@@ -127,10 +127,11 @@ def can_hold(pk_to, pk_from, rows):
 # cells
 # ---------------------------------------------------------------------------
 class DataCell:
-    __slots__ = ('rows',)
+    __slots__ = ('rows', 'broken')
 
     def __init__(self, rows):
         self.rows = [np.array(r, float) for r in rows]
+        self.broken = False     # rows were re-laid out in place while another indexer shares them (trigger bookkeeping)
 
     def copy(self):
         return DataCell([r.copy() for r in self.rows])
@@ -156,9 +157,10 @@ class TCCell:
 
 class CacheCell:
     """Shadow of ``indexer._data_cache`` (trigger bookkeeping only)."""
-    __slots__ = ('mass', 'vol', 'dirty')
+    __slots__ = ('mass', 'vol', 'dirty', 'diverged')
 
     def __init__(self):
+        self.diverged = False      # a holder replaced its data / TC / phase container but kept sharing the dict
         self.clear()
 
     def clear(self):
